@@ -1,5 +1,5 @@
 (* Properties_C14.v — C14: array and symbol-version tables round-trip in the declared byte order. *)
-From ElfioV Require Import Bytes Mem Stream SectionData SectionData_proofs Strings Elfio Table Accessors Tables_proofs.
+From ElfioV Require Import Bytes Mem Stream SectionData SectionData_proofs Strings Elfio Table Accessors Tables_proofs Modinfo_table.
 Local Open Scope N_scope.
 
 Theorem C14_array_roundtrip :
@@ -35,6 +35,19 @@ Theorem C14_versym_refuted_other_byte_order :
   exists v, enc_uint LSB 2 (wrap16 v) <> enc_uint MSB 2 (wrap16 v).
 Proof. exists 255. vm_compute. discriminate. Qed.
 Print Assumptions C14_versym_refuted_other_byte_order.
+
+(* module information: a section holding the records field=value NUL (what
+   add_attribute appends) is reported as exactly those attributes, in order —
+   whatever run of NUL bytes precedes the records and whatever follows the section *)
+Theorem C14_modinfo_attributes_reported :
+  forall (attrs : list attr) (pre zs post : bytes) fuel acc,
+    Forall attr_ok attrs -> Forall (fun x => x = 0) zs ->
+    let recs := concat (map attr_rec attrs) in
+    let size := lenN pre + lenN zs + lenN recs in
+    2 * lenN attrs + 2 <= lenN fuel ->
+    mod_parse fuel (Some (pre ++ zs ++ recs ++ post)) size (lenN pre) acc = Ok (acc ++ attrs).
+Proof. exact mod_parse_table. Qed.
+Print Assumptions C14_modinfo_attributes_reported.
 
 Example C14_example : arr_enc MSB 4 305419896 = [18; 52; 86; 120].
 Proof. reflexivity. Qed.
